@@ -205,6 +205,42 @@ def evaluate(cls, key, d, fr, model, corr, only=None):
                          first_value, again))
         again_s = observe_str(r, fval, fr)
         sreq.append("spec str " + ("ok str x" if again_s.startswith("ok") else again_s)); smeta.append((otok, "str", again_s))
+    # the outcome is what the frame IS, not how the object came about: a backward frame that went through
+    # copy.copy / copy.deepcopy / pickle (a response stored, queued or logged by the application), and a copied
+    # response, say what the original says  (strengthening after seeded round 6)
+    import copy as _copy
+    import pickle as _pickle
+    import random as _random
+    rr = _random.Random(__import__("zlib").crc32(key.encode()))
+    picks = ["n"] + ["%s%d" % (t, b) for t in "ke" for b in (0, 1, 5, 128, 254, 255, rr.randrange(2, 254))]
+    allout = dict(outcomes(fr))
+    for otok in picks:
+        if only and otok != only:
+            continue
+        fval = allout[otok]
+
+        def look(resp):
+            return (observe(lambda: resp.value, fr), observe_str(resp, resp.raw_value, fr),
+                    observe(lambda: resp.status, fr), observe(lambda: resp.error, fr),
+                    canon(resp.raw_value, fr))
+        try:
+            base = look(cls(fval))
+        except Exception:   # noqa - judged above
+            continue
+        routes = [("copy.copy(frame)", lambda: cls(_copy.copy(fval))),
+                  ("copy.deepcopy(frame)", lambda: cls(_copy.deepcopy(fval))),
+                  ("pickle round trip of the frame", lambda: cls(_pickle.loads(_pickle.dumps(fval)))),
+                  ("copy.copy(response)", lambda: _copy.copy(cls(fval))),
+                  ("copy.deepcopy(response)", lambda: _copy.deepcopy(cls(fval)))]
+        for rname, mk in routes:
+            try:
+                got = look(mk())
+            except Exception as e:  # noqa
+                got = ("err " + type(e).__name__,)
+            if got != base:
+                viol.append(("resp:%s:copied:%s" % (cls.__name__, okind(otok)),
+                             {"class": key, "outcome": otok, "accessor": "value/str/status/error/raw_value via " + rname},
+                             " | ".join(base), " | ".join(got)))
     if model is None:
         return viol, 0
     ans = model.batch(req)
